@@ -196,7 +196,7 @@ func TestHarness(t *testing.T) {
 			if has("streamtear") {
 				emit(guard("streamtear", "json-raw/stream", seed, func() SysRecord { return FamStreamTear(seed) }))
 			}
-			for _, f := range []string{"values", "errors", "closures", "nest"} {
+			for _, f := range []string{"values", "errors", "closures", "nest", "inforremotes"} {
 				if !has(f) {
 					continue
 				}
@@ -271,6 +271,8 @@ func runFam[T any](f string, c Codec[T], stream bool, chunk int, seed int64, n i
 
 func runFam0[T any](f string, c Codec[T], stream bool, chunk int, seed int64, n int) SysRecord {
 	switch f {
+	case "inforremotes":
+		return FamInForRemotes(c, stream, chunk, seed)
 	case "values":
 		return FamValues(c, stream, chunk, seed, n)
 	case "errors":
